@@ -36,9 +36,11 @@ def R_deep(x, tol):
     if isinstance(x, dict):
         # a dict subclass (OrderedDict, defaultdict, Counter): which mapping type the rounded copy has is not specified, its items are
         return dict((k, R_deep(v, tol)) for k, v in x.items())
+    if isinstance(x, tuple) and hasattr(x, '_fields'):
+        return type(x)(*[R_deep(e, tol) for e in x])          # namedtuple: same type, rounded fields
     if isinstance(x, (list, tuple, set, frozenset)):
         return type(x)(R_deep(e, tol) for e in x)
-    return x
+    return x            # everything else (range, ...) holds no float to round: unchanged
 
 
 def R_top(x, tol):
@@ -49,6 +51,8 @@ def R_shallow(x, tol):
     """one level into list/tuple/set (the standalone shallow_round)"""
     if isinstance(x, float):
         return round(x, tol)
+    if isinstance(x, tuple) and hasattr(x, '_fields'):
+        return type(x)(*[R_top(e, tol) for e in x])
     if isinstance(x, (list, tuple, set)):
         return type(x)(R_top(e, tol) for e in x)
     return x
@@ -102,6 +106,8 @@ def structures():
         return st.one_of(
             st.lists(ch, max_size=3).map(lambda xs: ['t', xs]),
             st.lists(ch, max_size=3).map(lambda xs: ['l', xs]),
+            st.tuples(st.one_of(floatspecs(), V.ints()), st.one_of(floatspecs(), V.ints())).map(lambda xy: ['N', list(xy)]),      # namedtuple
+            st.integers(0, 4).map(lambda n: ['G', n]),                                                                               # range
             st.lists(st.one_of(floatspecs(), V.ints(), V.strs(False)), max_size=3).map(lambda xs: ['S', xs]),
             st.lists(st.tuples(V.strs(False), ch), max_size=3).map(lambda kvs: ['d', [list(kv) for kv in kvs]]),
             st.lists(st.tuples(hk, ch), max_size=2).map(lambda kvs: ['d', [list(kv) for kv in kvs]]),
@@ -115,7 +121,7 @@ def float_paths(spec, path=()):
     t = spec[0]
     if t == 'f':
         out.append(path)
-    elif t in 'tlS':
+    elif t in 'tlSN':
         for i, x in enumerate(spec[1]):
             out += float_paths(x, path + (i,))
     elif t == 'd':
@@ -153,7 +159,7 @@ def twin_paths(spec, path=()):
     t = spec[0]
     if t in 'iB' or (t == 'f' and float(spec[1]).is_integer() and abs(float(spec[1])) < 1e6):
         out.append(path)
-    elif t in 'tl':
+    elif t in 'tlN':
         for i, x in enumerate(spec[1]):
             out += twin_paths(x, path + (i,))
     elif t == 'd':
@@ -262,7 +268,7 @@ def make_fn(case, log):
 
 def skeleton(spec):
     t = spec[0]
-    if t in 'tlS':
+    if t in 'tlSN':
         return t + '(' + ''.join(skeleton(x) for x in spec[1]) + ')'
     if t == 'd':
         return 'd(' + ''.join(k[0] + ':' + skeleton(v) for k, v in spec[1]) + ')'
@@ -275,7 +281,7 @@ def has_dict_subclass(spec):
     t = spec[0]
     if t == 'D':
         return True
-    if t in 'tlS':
+    if t in 'tlSN':
         return any(has_dict_subclass(x) for x in spec[1])
     if t == 'd':
         return any(has_dict_subclass(v) for _, v in spec[1])
@@ -288,7 +294,7 @@ def has_multiset(spec):
         return False
     if t == 'S':
         return len(spec[1]) > 1
-    if t in 'tl':
+    if t in 'tlN':
         return any(has_multiset(x) for x in spec[1])
     if t == 'd':
         return any(has_multiset(v) for _, v in spec[1])
@@ -301,7 +307,7 @@ def has_nonstr_dictkey(spec):
         return False
     if t == 'd':
         return any(k[0] != 's' or has_nonstr_dictkey(v) for k, v in spec[1])
-    if t in 'tlS':
+    if t in 'tlSN':
         return any(has_nonstr_dictkey(x) for x in spec[1])
     return False
 
@@ -441,9 +447,11 @@ def run_case(case):
         classes.append('second_call_is_typed_twin')
     if case.get('alias'):
         classes.append('same_object_twice')
+    if any('N(' in skeleton(sp) or skeleton(sp) == 'G' or 'G' in skeleton(sp) for sp in specs):
+        classes.append('namedtuple_or_range_argument')
     return out, nt, classes
 
 
-REQUIRED_CLASSES = ['same_object_twice', 'second_call_is_typed_twin', 'tol:16', 'tol:20', 'dict_subclass', 'pair_shares', 'pair_differs', 'straddles_boundary', 'nonstr_dict_key', 'floatdepth:1', 'floatdepth:2', 'tol:-1', 'tol:None', 'tol:0',
+REQUIRED_CLASSES = ['namedtuple_or_range_argument', 'same_object_twice', 'second_call_is_typed_twin', 'tol:16', 'tol:20', 'dict_subclass', 'pair_shares', 'pair_differs', 'straddles_boundary', 'nonstr_dict_key', 'floatdepth:1', 'floatdepth:2', 'tol:-1', 'tol:None', 'tol:0',
                     'deep:True', 'deep:False', 'path:standalone', 'path:call', 'path:key', 'path:keygen']
 TRIGGERS = {}
